@@ -11,9 +11,6 @@ package main
 
 import (
 	"fmt"
-	"os"
-	"path/filepath"
-	"sort"
 	"strings"
 
 	goat "github.com/philhassey/goatlang"
@@ -693,21 +690,8 @@ func runC06(c *Ctx) error {
 	}
 	// handwritten programs first (shapes that once slipped through), then
 	// switch / range / return: Go toolchain on generated programs
-	if files, _ := filepath.Glob(filepath.Join(c.Corpus, "C06-programs", "*.go")); len(files) > 0 {
-		sort.Strings(files)
-		var progs []GoProg
-		var feats []map[string]bool
-		for _, f := range files {
-			b, err := os.ReadFile(f)
-			if err != nil {
-				return err
-			}
-			progs = append(progs, GoProg{Src: string(b)})
-			feats = append(feats, map[string]bool{"corpus-" + strings.TrimSuffix(filepath.Base(f), ".go"): true})
-		}
-		if err := c.goDiff("go-toolchain-corpus", progs, feats); err != nil {
-			return err
-		}
+	if err := c.runCorpus("C06-programs"); err != nil {
+		return err
 	}
 	np := 200
 	if c.Thorough() {
